@@ -33,23 +33,34 @@ func init() {
 	// request that was being served
 	register("rpcserver", func(c *Ctx) {
 		cmd := exec.Command(os.Args[0], "rpcserver-child", fmt.Sprint(c.Seed), fmt.Sprint(c.N))
-		out, err := cmd.Output()
 		last := "<none>"
 		finished := false
-		for _, line := range strings.Split(string(out), "\n") {
-			switch {
-			case strings.HasPrefix(line, "REQ "):
-				last = line[4:]
-			case strings.HasPrefix(line, "HIT "):
-				c.Hit(line[4:])
-			case strings.HasPrefix(line, "FAIL "):
-				c.Fail("%s", line[5:])
-			case strings.HasPrefix(line, "LINE "):
-				// one structured request with the shape of the real server's answer: recomputed by the Lean dispatch model
-				c.Emit(line[5:])
-			case line == "CHILD-FINISHED":
-				finished = true
+		// the child's output is read line by line while it runs (the rpc-req lines of a thorough run are some hundred MB)
+		pipe, err := cmd.StdoutPipe()
+		if err == nil {
+			err = cmd.Start()
+		}
+		if err == nil {
+			sc := bufio.NewScanner(pipe)
+			sc.Buffer(make([]byte, 1<<20), 1<<28)
+			for sc.Scan() {
+				line := sc.Text()
+				switch {
+				case strings.HasPrefix(line, "REQ "):
+					last = line[4:]
+				case strings.HasPrefix(line, "HIT "):
+					c.Hit(line[4:])
+				case strings.HasPrefix(line, "FAIL "):
+					c.Fail("%s", line[5:])
+				case strings.HasPrefix(line, "LINE "):
+					// one structured request with the shape of the real server's answer: recomputed by the Lean dispatch model
+					c.Emit(line[5:])
+				case line == "CHILD-FINISHED":
+					finished = true
+				}
 			}
+			io.Copy(io.Discard, pipe)
+			err = cmd.Wait()
 		}
 		if err != nil || !finished {
 			c.Fail("C18: the JSON-RPC server process terminated (%v) while serving the request [%s]", err, last)
